@@ -105,7 +105,10 @@ pub fn build_section(
     if lsec == "info_source" {
         let has_gid = l["shape"]["edf"].as_array().unwrap().iter().any(|f| f == "gameid");
         if has_gid {
-            let gid: u64 = (rng.gen::<u64>() & !0xff_ffff) | appid as u64;
+            let mut gid: u64 = (rng.gen::<u64>() & !0xff_ffff) | appid as u64;
+            if CAP_U63.with(|c| c.get()) {
+                gid &= i64::MAX as u64;
+            }
             fixed.insert("gameid".into(), (json!(gid), gid.to_le_bytes().to_vec()));
         } else {
             fixed.insert("id".into(), (json!(appid as u16), (appid as u16).to_le_bytes().to_vec()));
